@@ -17,7 +17,7 @@ json.dump({"property":prop,"breaks":"see notes.md (written by the seeding agent,
  "confirmed":{"repo_head":head,"demo_exit_clean_tree":0,"demo_exit_with_change":1,"new_test_failures_with_change":0,
    "commands":["tools/confirm_seeded.sh <dir> <scratch worktree>  (pytest -k 'not ftp' before/after; demo.py before/after)",
                "tools/try_seeded.sh patch.diff %s  (quick check against a scratch worktree, VERIF_REPO)"%prop]},
- "checks_run":checks.split(),"detected_by_quick_check":int(caught)>0,"violation_lines":int(caught),"no_failing_input_found_lines":int(nf),"first_violation":first},
+ "checks_run":checks.split(),"tier":__import__("os").environ.get("TIER","quick"),"detected_by_quick_check":int(caught)>0 and __import__("os").environ.get("TIER","quick")=="quick","detected_by_thorough_check":int(caught)>0 and __import__("os").environ.get("TIER","quick")=="thorough","violation_lines":int(caught),"no_failing_input_found_lines":int(nf),"first_violation":first},
  open("seeded/%s-mut%s/meta.json"%(prop,n),"w"),indent=1)
 PY
 echo "  caught=$caught nf=$nf :: $first"
